@@ -143,7 +143,7 @@ func (c10) Build(tier string, seed uint64) []any {
 	var cs []any
 	per, nEnc, nDec := 20, 60, 80
 	if tier == "thorough" {
-		per, nEnc, nDec = 300, 800, 2000
+		per, nEnc, nDec = 1500, 4000, 10000
 	}
 	patterns := []string{"random", "permutation", "repeat", "alternate", "single", "subseq"}
 	for _, ts := range c10Syntaxes {
